@@ -4,6 +4,7 @@ package main
 // and the instrumented readers (delivery schedules, injected I/O failures) used by C05-C09, C18, C19.
 
 import (
+	"sync/atomic"
 	"bytes"
 	"compress/zlib"
 	"errors"
@@ -177,11 +178,22 @@ type loaderFn func(io.Reader) (*meta.Data, io.Reader, error)
 
 var loaders = map[string]loaderFn{"png": pngmeta.Load, "jpeg": jpegmeta.Load, "webp": webpmeta.Load, "auto": autometa.Load}
 
+// read sizes used when draining a returned stream: callers read in all sorts of ways, zero-length reads included
+var drainPatterns = [][]int{{512}, {1}, {0, 7}, {3, 0, 1, 0, 5}, {4096}, {65536}, {2, 4095}}
+var drainCounter uint32
+
 func drainStream(s io.Reader) ([]byte, string) {
+	pat := drainPatterns[int(atomic.AddUint32(&drainCounter, 1))%len(drainPatterns)]
+	return drainStreamPattern(s, pat)
+}
+
+func drainStreamPattern(s io.Reader, pat []int) ([]byte, string) {
 	var out []byte
-	buf := make([]byte, 512)
+	buf := make([]byte, 65536)
+	zero := 0
 	for i := 0; i < 1<<30; i++ {
-		n, err := s.Read(buf)
+		k := pat[i%len(pat)]
+		n, err := s.Read(buf[:k])
 		out = append(out, buf[:n]...)
 		if err != nil {
 			if err == io.EOF {
@@ -191,6 +203,12 @@ func drainStream(s io.Reader) ([]byte, string) {
 				return out, "fail"
 			}
 			return out, "other:" + err.Error()
+		}
+		if n == 0 && k > 0 {
+			zero++
+			if zero > 1000 {
+				return out, "noprogress"
+			}
 		}
 	}
 	return out, "noend"
